@@ -1131,6 +1131,11 @@ def gen_document(rnd, n_contracts=None, blocks_per_stream=None, kinds=None, vers
 
 
 
+# whether gen_hostile_block may produce the DUP-shared term DAG (a known, recorded blow-up of the front-end): switched off
+# where one such block would only make a whole multi-block CLI run exceed its budget (monitors/c10.py part b/c)
+HOSTILE_DAG = True
+
+
 def gen_hostile_block(rnd):
     """inputs aimed at termination / exception containment (C10)"""
     r = rnd.random()
@@ -1177,6 +1182,13 @@ def gen_hostile_block(rnd):
                 out += [("DUP1", None), ("PUSH", hexv(key if sto else key * 0x20)), (st, None)]
                 key += 1
             out += [("DUP2", None), (ld, None), ("POP", None)] if rnd.random() < 0.5 else [("DUP2", None), ("DUP1", None), (st, None)]
+    elif r < 0.70 and HOSTILE_DAG:
+        # a term whose sub-terms are shared through DUP: n doublings give a DAG with 2^n paths (x+x, then (x+x)*(x+x) ...);
+        # linear in the block, exponential for any traversal of the term that does not remember what it has visited
+        for _ in range(rnd.randrange(8, 26)):
+            out += [("DUP1", None), (rnd.choice(["ADD", "ADD", "MUL", "XOR", "AND", "SUB"]), None)]
+            if rnd.random() < 0.15:
+                out += [("PUSH", hexv(rnd.randrange(1, 9))), ("ADD", None)]
     elif r < 0.8:
         # long chains of dependent memory accesses (transitive dependency edges)
         n = rnd.randrange(12, 40)
